@@ -6,6 +6,10 @@ coq/Model/Writer.v (ocaml/writer_driver.ml).  Each property's check filters the 
 
 go result / model result per op:
   add, size, wm : the model computes what the Go code must print (exact diff)
+  pdl           : the context deadline the RoundTripper receives for the produce / metadata request of the real
+                  Writer against produce_deadline_ms (effective WriteTimeout) / metadata_deadline_ms (none: caller's ctx only)
+  pto           : real Writer on a delaying broker (ack after d ms) against a RUN of the model with timed_reaction:
+                  attempts:copies:result
   cfgd          : the option accessors (zero / negative field -> documented default) against cfg_of_options
   wire          : real Writer on the real Transport over synchronous pipes to a wire-level fake broker that
                   stalls mid-request; judged like e2e but only by the order / limits / log predicates; the
@@ -130,6 +134,17 @@ def failures_of_case(c):
                 out.append(("*", "correspondence", "Client.Produce's response mapping (error code value / Throttle / BaseOffset / "
                             "LogAppendTime / LogStartOffset / RecordErrors) differs from the model", None))
         return out
+    if op in ("pdl", "pto"):
+        if go != model:
+            if op == "pdl" and go.split(":")[0] != model.split(":")[0] or op == "pto":
+                out.append(("C01", "property",
+                            "the produce round trip is not bounded by the effective WriteTimeout: the deadline the RoundTripper "
+                            "receives differs from produce_deadline_ms (pdl), or an acknowledgement arriving within WriteTimeout "
+                            "is abandoned and the batch re-sent / one arriving after it is awaited (pto: attempts:copies:result; "
+                            "go = implementation, model = run of the transition system with timed_reaction)", None))
+            else:
+                out.append(("*", "correspondence", "the metadata lookup's deadline differs from the model (metadata_deadline_ms: the caller's context only)", None))
+        return out
     if op == "cfgd":
         if go != model:
             out.append(("*", "correspondence", "the Writer's option accessors (batchSize()/batchBytes()/maxAttempts()/…: zero or "
@@ -205,6 +220,8 @@ def relevant(prop, c):
         return prop == "C01"
     if op == "cfgd":
         return prop == "C08"
+    if op in ("pdl", "pto"):
+        return prop == "C01"
     if op == "wire":
         return prop == "C07" or (prop == "C09" and "census" in c["feats"].split(","))
     if op == "wm":
@@ -222,6 +239,8 @@ def nontrivial(c):
         return True
     if c["op"] == "cfgd":
         return "zero-fields=0" not in c["feats"]
+    if c["op"] in ("pdl", "pto"):
+        return "rt=wt" not in c["feats"]
     if c["op"] == "wire":
         return "stall" in c["feats"] or "census" in c["feats"]
     if c["op"] == "pr":
